@@ -55,8 +55,8 @@ ASSUMPTIONS = [
     "with delta <= A over the squaring steps of both exponentials and the final composition; observed 0.08-0.36 A*S2",
     "CPU tensors only; steps in [0, 8]; D in {2, 3}",
 ]
-MIN_NONTRIVIAL = {"quick": 2000, "thorough": 9000}
-MIN_OUTCOMES = {"quick": 6500, "thorough": 35000}
+MIN_NONTRIVIAL = {"quick": 4000, "thorough": 9000}
+MIN_OUTCOMES = {"quick": 10000, "thorough": 35000}
 MIN_SUB_TRACES = {"closed-form": 4000, "inverse-flag": 500, "convergence": 100, "api-equal": 500, "smooth-inverse": 40, "call-sequence": 200, "object-sequence": 200}
 
 C = 64.0
@@ -86,6 +86,9 @@ _GENERIC = [
     ((-0.72, -0.56, -0.69), (-0.04, -0.06, 0.05, 0.03, 0.04, -0.05), (-0.06, -0.03, 0.02)),
 ]
 
+EXTRA_SCALES = [0.3, 1.7]
+NEG_SCALES = [-1.0, -0.5, -0.7]
+NEG_FORMS = [("expv", "flag"), ("ExpFlow", "module.forward"), ("ExpFlow", "module.inverse"), ("SVF.u", "module.inverse")]
 GEN_NAMES = ["diag", "iso", "rot", "shear", "generic", "strong"]
 
 
@@ -151,6 +154,9 @@ def bounds(tier):
         "generators": GEN_NAMES,
         "steps": list(range(MAX_STEPS + 1)),
         "scales": scales(tier),
+        "extra_scales_not_float32_representable": EXTRA_SCALES,
+        "negative_scales_with_inverse_request": NEG_SCALES,
+        "relation_scales": [1.0, 0.5, -0.7, 0.3] if tier == "quick" else [1.0, 0.5, 0.3, -0.7, -1.0, 1.7, -0.5],
         "dtypes": ["float32", "float64"],
         "batch_sizes": [1, 2],
         "apis": apis(True, 1, 2),
@@ -267,6 +273,15 @@ class Result:
         self.problems.append((sig, detail))
 
 
+def max_step(f: np.ndarray) -> float:
+    """Largest difference between neighbouring samples of a batch of fields (N, D, ...spatial)."""
+    m = 0.0
+    for ax in range(2, f.ndim):
+        if f.shape[ax] > 1:
+            m = max(m, float(np.abs(np.diff(f, axis=ax)).max()))
+    return m
+
+
 def fit_affine(v: np.ndarray, shape, ac: bool):
     """Least-squares generator of a sampled field (float64) and the residual."""
     X = fa.cube_points(shape, ac).reshape(-1, len(shape))
@@ -290,6 +305,10 @@ def case_closed_form(case) -> Result:
     eps = EPS[dtype]
     tail = _sigtail(case)
     sc = None if (scale == 1.0 and case.get("scale_none")) else scale
+    inv_form = case.get("inverse", "")
+    if inv_form:
+        tail += f"/inverse={inv_form}/scale{'<0' if scale < 0 else '>0'}"
+    s_eff = -scale if inv_form else scale  # the inverse flag negates the given scale, whatever its sign
     input_resid = 0.0
     if api.startswith("SVFFD"):
         st, res = guarded(call_svffd, api, Gs, shape, sc, steps, dtype)
@@ -316,7 +335,7 @@ def case_closed_form(case) -> Result:
     else:
         flows = np.stack([fa.affine_field(G, shape, ac) for G in Gs])
         flow = torch.tensor(flows, dtype=DT[dtype])
-        st, out = guarded(call_api, api, flow, shape, ac, sc, steps)
+        st, out = guarded(call_api, api, flow, shape, ac, sc, steps, inv_form)
         r.trans += 1
         if st == "raises":
             r.bad(f"C11/closed-form/api={api}/{tail}/raises={type(out).__name__}", exc_text(out))
@@ -331,12 +350,13 @@ def case_closed_form(case) -> Result:
     o = _np(out)
     r.outcomes.append(h64(o))
     for i, G in enumerate(Gs):
-        sG = scale * G
+        sG = s_eff * G
         if steps > 0 and not fa.ss_admissible(sG, steps, shape, ac):
             r.undef.append("generator-does-not-keep-sample-hull-invariant")
             continue
         exp = fa.affine_field(fa.ss_closed(sG, steps), shape, ac)
         nrm = max(fa.norm_inf(sG), 1e-6)
+        # eps is the machine epsilon of the INPUT dtype: no float32 term for float64 fields
         tol = C * eps * (1 + steps) * nrm + 4.0 * abs(scale) * input_resid
         err = float(np.abs(o[i] - exp).max())
         r.judged += 1
@@ -345,10 +365,10 @@ def case_closed_form(case) -> Result:
             r.bad(
                 f"C11/closed-form/api={apiname}/{tail}/{kind}",
                 f"max |result - ((I+sG/2^k)^(2^k)-I)x| = {err:.3e} > tol {tol:.2e} (item {i}, gen {names[i] if i < len(names) else '?'}, "
-                f"steps {steps}, scale {scale}, shape {shape})",
+                f"steps {steps}, scale {scale}{', inverse requested by ' + inv_form if inv_form else ''}, shape {shape})",
             )
-        if float(np.abs(o[i] - scale * flows[i]).max()) > 1e-3 * nrm:
-            r.nontriv.append(h64("cf", case["shape"], ac, names[i], steps, scale))
+        if float(np.abs(o[i] - s_eff * flows[i]).max()) > 1e-3 * nrm:
+            r.nontriv.append(h64("cf", case["shape"], ac, names[i], steps, scale, inv_form))
     return r
 
 
@@ -441,6 +461,20 @@ def case_api_equal(case) -> Result:
     r.judged += 1
     if float((base.double() - flow.double() * scale).abs().max()) > 1e-3 * max(float(flow.abs().max()), 1e-9):
         r.nontriv.append(h64("api", case["shape"], ac, case["field"], steps, scale, dtype))
+    if scale != 1.0:
+        # the scale argument means "exponentiate s*v": expv(v, scale=s) == expv(s*v) up to rounding of the input dtype
+        st, pre = guarded(call_api, "expv", flow * scale, shape, ac, None, steps)
+        r.trans += 1
+        if st == "raises":
+            r.bad(f"C11/api-equal/api=expv(s*v)/{tail}/raises={type(pre).__name__}", exc_text(pre))
+        else:
+            hmin = min((2.0 / (n - 1) if ac else 2.0 / n) for n in shape if n > 1)
+            lip = len(shape) * max_step(v) / hmin
+            mag = abs(scale) * float(np.abs(v).max())
+            tol = C * EPS[dtype] * (1 + steps) * max(mag, 1e-9) * float(np.exp(min(abs(scale) * lip, 30.0)))
+            d = float((pre.double() - base.double()).abs().max())
+            if not np.isfinite(d) or d > tol:
+                r.bad(f"C11/api-equal/api=expv(s*v)/{tail}/scale-argument", f"max |expv(v, scale=s) - expv(s*v)| = {d:.3e} > tol {tol:.2e} (scale {scale}, steps {steps}, field {case['field']}, shape {shape})")
     for api in ("expv-positional", "ExpFlow", "SVF.u"):
         st, out = guarded(call_api, api, flow, shape, ac, sc, steps)
         r.trans += 1
@@ -810,12 +844,24 @@ def cases_of(shard):
                         yield {**base, "N": N, "gen": gen, "scale": scale, "steps": steps, "api": api}
                         if scale == 1.0 and api in ("expv", "ExpFlow", "SVF.u"):
                             yield {**base, "N": N, "gen": gen, "scale": scale, "steps": steps, "api": api, "scale_none": True}
+            # scales that are not float32 numbers (a float64 field must be scaled in float64)
+            for scale in EXTRA_SCALES:
+                if scale in scales(tier):
+                    continue
+                for steps in range(MAX_STEPS + 1) if scale == 0.3 else (1, 4, 8):
+                    for api in ("expv", "ExpFlow", "SVF.u") if scale == 0.3 else ("expv",):
+                        yield {**base, "N": N, "gen": gen, "scale": scale, "steps": steps, "api": api}
+            # negative scale together with a request for the inverse: the result is exp(+|s| v)
+            for scale in NEG_SCALES:
+                for steps in (0, 2, 5, 8):
+                    for api, form in NEG_FORMS:
+                        yield {**base, "N": N, "gen": gen, "scale": scale, "steps": steps, "api": api, "inverse": form}
     elif kind in ("inverse-flag", "api-equal"):
-        rs = [1.0, 0.5] if tier == "quick" else [1.0, 0.5, 0.3]
+        rs = [1.0, 0.5, -0.7, 0.3] if tier == "quick" else [1.0, 0.5, 0.3, -0.7, -1.0, 1.7, -0.5]
         for field in relation_fields(D):
             for N in (1, 2):
                 for scale in rs:
-                    for steps in range(MAX_STEPS + 1):
+                    for steps in range(MAX_STEPS + 1) if (scale in (1.0, 0.5) or tier == "thorough") else (0, 1, 4, 8):
                         c = {**base, "N": N, "field": field, "scale": scale, "steps": steps}
                         yield c
                         if scale == 1.0:
